@@ -49,6 +49,43 @@ CHECKS = {
     note='Trusted base: vlib/ref/seqmodel.py.', design='4/C18'),
 }
 
+
+CHECKS.update({
+ 'C06': dict(
+    technique='runtime monitoring: icontract post-conditions on Branch.append/copy/new_constant/new_world recompute freshness by walking all nodes, over exhaustive short + random operation histories; witness monitor on rule BEFORE/AFTER_APPLY events in real proofs',
+    text='Exploration: all histories of <= 4 (thorough 5) operations over a 14-symbol alphabet incl. copies, random histories to depth 40, and first-order/modal proofs in every quantified/modal logic with the contracts riding along.',
+    note='Freshness is recomputed from node mappings (REF-SYN constants; world keys); contracts run in record mode inside proofs.', design='4/C06'),
+ 'C08': dict(
+    technique='runtime monitoring: models assembled through the public model API, value_of compared with the reference evaluator on the finished model data; frame closure, classical identity/existence invariants and insertion-order independence checked',
+    text='Exploration over random small models (worlds <= 3, constants <= 3) x seeded sentences in all 57 logics.',
+    note=TB_SEM, design='4/C08'),
+ 'C10': dict(
+    technique='runtime monitoring: metamorphic relatives (conclusion among premises, added premises, injective renamings generated by the reference syntax) run through the real prover; outcome classes compared',
+    text='Exploration over the shared proof workload incl. first-order-modal arguments that have no enumeration oracle.',
+    note='Limit-caused outcomes are excluded as the property says.', design='4/C10'),
+ 'C11': dict(
+    technique='runtime monitoring: every declared (weaker, stronger) pair read from the live registry; arguments VALID in the weaker logic re-run in the stronger; blame attributed by the reference countermodel search',
+    text='Exploration over all ~98 declared pairs (thorough: transitive pairs too).', note=TB_SEM, design='4/C11'),
+ 'C14': dict(
+    technique='runtime monitoring: algebraic laws of ==, hash, ordering and rebuild/copy/pickle round trips over generated items of all nine types and arguments, in worker processes with ITEM_CACHE_SIZE 1/2/7/1000 and observed cache evictions',
+    text='Exploration; history independence is exercised by real evictions (counted in the evidence).',
+    note='Trusted base: vlib/ref/syn.py structural identity.', design='4/C14'),
+ 'C15': dict(
+    technique='runtime monitoring: substitute/unquantify/negative and the derived attribute sets of generated sentences compared with the reference walker',
+    text='Exploration, exhaustive for sentences with <= 1 connective/quantifier over a small vocabulary (thorough: <= 2).',
+    note='Trusted base: vlib/ref/syn.py.', design='4/C15'),
+ 'C16': dict(
+    technique='runtime monitoring: event tap on the tableau bus + snapshot comparison after the trunk and after EVERY step() of real proofs; tree and stats recomputed from the branch list after finish',
+    text='Exploration: every prefix of the step history of thousands of proofs per logic is one monitored state.',
+    note='Observation through public step()/stat()/tree/stats and Tableau events only.', design='4/C16'),
+ 'C17': dict(
+    technique='runtime monitoring: step limits at every cut point, time limits under a virtual clock at every cut point, idempotence snapshots, locked-state mutators, and random call interleavings against a lifecycle automaton',
+    text='Exploration; no wall-clock value enters a verdict.', note='Trusted base: the lifecycle automaton in vlib/props/c17.py.', design='4/C17'),
+ 'C20': dict(
+    technique='runtime monitoring: get_data() of branch models and directly built models compared with value_of(), frames and R',
+    text='Exploration over thousands of models per logic.', note='Relative to the library evaluator (C08 checks the evaluator).', design='4/C20'),
+})
+
 def main():
     hooks = subprocess.run(['git', '-C', '/repo', 'log', '--format=%H %s'], capture_output=True, text=True).stdout.splitlines()
     hook_commits = [l.split()[0] for l in hooks if l.split(' ', 1)[1].startswith('verif hooks')]
